@@ -319,4 +319,34 @@ theorem model_verdict (c : Board.Case) (h : WfCase c) :
   obtain ⟨h5, h6⟩ := bootlogs m _ h4
   exact ⟨pre, t, m, h1, h2, accepted_start c pre m h2, h3, h5, h6⟩
 
+
+/-- **(a) for the model, Linux stage**: with `boot_timeout = T`, whatever the console does, a
+    bring-up that fails in the Linux stage fails with `TimeoutError`, no later than `T` after
+    `poweron()` (machine without U-Boot) / after `do_boot()` returned (through U-Boot) -/
+theorem model_deadline_linux (c : Board.Case) (h : WfCase c) (T : Nat) (hT : lnxT c = some T) (e : Exc)
+    (he : (Board.run c).res = some e) :
+    ∃ pre t m, (Board.run c).evs = pre ++ [.poff t] ∧ steps c {} pre = some m ∧
+      ((m.ph = .ask ∨ m.ph = .login1 ∨ m.ph = .login2 ∨ m.ph = .pw) →
+        e = .timeout ∧ t ≤ m.start + T
+        ∧ (if c.ub.isSome then Ev.booted m.start ∈ pre else Ev.pon m.start ∈ pre)) := by
+  obtain ⟨pre, t, m, h1, h2, h3, h4, _, _⟩ := model_verdict c h
+  rw [he] at h4
+  refine ⟨pre, t, m, h1, h2, fun hph => ?_⟩
+  obtain ⟨h5, h6⟩ := deadline_linux c m t e h4 T hT hph
+  exact ⟨h5, h6, h3.2 (by rcases hph with h | h | h | h <;> rw [h] <;> rfl)⟩
+
+/-- **(a) for the model, U-Boot stage**: with `boot_timeout = T`, a bring-up that fails before the
+    U-Boot prompt was reached fails with `TimeoutError`, no later than `T` + one poll period after
+    `poweron()` -/
+theorem model_deadline_uboot (c : Board.Case) (h : WfCase c) (T : Nat) (hT : ubT c = some T) (e : Exc)
+    (he : (Board.run c).res = some e) :
+    ∃ pre t m, (Board.run c).evs = pre ++ [.poff t] ∧ steps c {} pre = some m ∧
+      ((m.ph = .ubAuto ∨ m.ph = .ubLoop) →
+        e = .timeout ∧ t ≤ m.start + T + (Params.ubootPollRead + Params.ubootPollSleep) ∧ Ev.pon m.start ∈ pre) := by
+  obtain ⟨pre, t, m, h1, h2, h3, h4, _, _⟩ := model_verdict c h
+  rw [he] at h4
+  refine ⟨pre, t, m, h1, h2, fun hph => ?_⟩
+  obtain ⟨h5, h6⟩ := deadline_uboot c m t e h4 T hT hph
+  exact ⟨h5, h6, (h3.1 (by rcases hph with h | h <;> rw [h] <;> rfl)).2⟩
+
 end C18
